@@ -112,8 +112,92 @@ def handleSched (k steps : String) : String :=
       | none => "bad-op"
       | some toks => " ".intercalate toks
 
+-- ---------------------------------------------------------------- stress cases
+
+/-- fate of request `i` of a stress case (same table in harness/internal/c09/stress.go) -/
+def stressOutcome (seed i : Nat) : String :=
+  match ((seed * 131 + i * 7919 + 12345) % 65536 / 16) % 10 with
+  | 0 => "ok" | 1 => "ok" | 2 => "ok"
+  | 3 => "rst" | 4 => "rst"
+  | 5 => "e5"
+  | 6 => "hup"
+  | 7 => "pan"
+  | 8 => "her"
+  | _ => "abort"
+
+def stressParams : Params :=
+  { passive := true, failDur := 100, maxFails := 100, retries := 0, maxReq := 0, strikes := 1 }
+
+/-- one request from entry to return, on Host object `i % 2`; returns the new state and how the
+    handler returned -/
+def stressReq (s : State) (cur : CfgId) (seed i : Nat) : Option (State × String) := do
+  let s1 ← step s (.newReq cur false)
+  let r := s.reqs.length
+  let s2 ← step s1 (.dispatch r (i % 2))
+  match stressOutcome seed i with
+  | "ok" => (endAttempt s2 r .ok).map (·, "ok")
+  | "rst" => (endAttempt s2 r .upstreamErr).map (·, "err")
+  | "e5" => do
+    let s3 ← strikesN s2 r 1
+    (endAttempt s3 r .ok).map (·, "ok")
+  | "hup" => (endAttempt s2 r .panic).map (·, "panic")
+  | "pan" => (endAttempt s2 r .panic).map (·, "panic")
+  | "her" => (endAttempt s2 r .handlerErr).map (·, "err")
+  | _ => (endAttempt s2 r .clientAbort).map (·, "ok")
+
+def stressLoop (seed n : Nat) : Nat → Nat → State → CfgId → List String → Option (State × CfgId × List String)
+  | 0, _, s, cur, acc => some (s, cur, acc)
+  | fuel + 1, i, s, cur, acc =>
+    if i == n / 2 && cur == 0 then
+      -- the reload that keeps both upstreams
+      match step s (.newCfg stressParams) with
+      | none => none
+      | some s1 =>
+        match stores s1 1 [0, 1] with
+        | none => none
+        | some s2 =>
+          match unload s2 0 [0, 1] with
+          | none => none
+          | some s3 =>
+            match stressReq s3 1 seed i with
+            | none => none
+            | some (s4, res) => stressLoop seed n fuel (i + 1) s4 1 (acc ++ [res])
+    else
+      match stressReq s cur seed i with
+      | none => none
+      | some (s1, res) => stressLoop seed n fuel (i + 1) s1 cur (acc ++ [res])
+
+def sumOver (f : Nat → Int) (n : Nat) : Int := (List.range n).foldl (fun a o => a + f o) 0
+
+def handleStress (ns seeds : String) : String :=
+  match num ns, num seeds with
+  | some n, some seed =>
+    if n < 1 || n > 64 then "bad-op" else
+    match step init (.newCfg stressParams) with
+    | none => "bad-op"
+    | some s0 =>
+      match stores s0 0 [0, 1] with
+      | none => "bad-op"
+      | some s1 =>
+        match stressLoop seed n n 0 s1 0 [] with
+        | none => "bad-op"
+        | some (s2, cur, res) =>
+          match unload s2 cur [0, 1] with
+          | none => "bad-op"
+          | some s3 =>
+            "n=" ++ toString n ++
+            " ok=" ++ toString (res.count "ok") ++ " err=" ++ toString (res.count "err") ++
+            " panic=" ++ toString (res.count "panic") ++
+            " inc=" ++ toString ((s2.reqs.map (·.incs)).foldl (· + ·) 0) ++
+            " dec=" ++ toString ((s2.reqs.map (·.hist.length)).foldl (· + ·) 0) ++
+            " fail=" ++ toString s2.log.length ++
+            " forget=" ++ toString (((settle s3).log.filter (·.st == FSt.forgotten)).length) ++
+            " end=" ++ toString (sumOver s2.inflight s2.nextHost) ++ "/" ++ toString (sumOver (settle s3).fails s3.nextHost)
+  | _, _ => "bad-op"
+
 def handle : List String → String
   | ["sched", k, steps] => handleSched k steps
+  | ["stress", n, seed] => handleStress n seed
   | ["static", "defer"] => "defer-ok"
   | _ => "bad-op"
 
